@@ -33,6 +33,7 @@ type c08Case struct {
 	ExcludeBody   bool     `json:"excludeBody"`
 	ExcludeWO     bool     `json:"excludeWO"`
 	Multi         bool     `json:"multi"`
+	Req           string   `json:"req"`
 }
 
 func c08Run(c *Case) []any {
@@ -76,7 +77,11 @@ func c08Run(c *Case) []any {
 		case "arrMax1":
 			r["headers"] = map[string]any{"X-A": map[string]any{"schema": map[string]any{"type": "array", "items": intS, "maxItems": 1}}}
 		}
-		bodySchema := map[string]any{"type": "object", "required": []any{"q", "w"}, "properties": map[string]any{
+		reqList := []any{"q", "w"}
+		if tc.Req == "qrw" {
+			reqList = []any{"q", "r", "w"}
+		}
+		bodySchema := map[string]any{"type": "object", "required": reqList, "properties": map[string]any{
 			"q": intS, "r": map[string]any{"type": "string", "readOnly": true}, "w": map[string]any{"type": "string", "writeOnly": true}}}
 		textSchema := map[string]any{"type": "string", "minLength": 2}
 		switch tc.Decl {
@@ -101,6 +106,8 @@ func c08Run(c *Case) []any {
 		bm := tc.Body.(map[string]any)
 		if bm["t"] == "str" {
 			body = []byte(csToString(bm["cs"]))
+		} else if bm["t"] == "raw" {
+			body = []byte(bm["s"].(string))
 		} else {
 			body = []byte(taggedToJSONText(tc.Body))
 		}
